@@ -81,6 +81,12 @@ fn build(c: &mut Composer, log_n: u32, seed: u64, full: bool) -> Result<(), Erro
     // c = x*y + 11 (PI on a multiplication gate)
     let m = c.gate_mul(Constraint::new().mult(1).a(x).b(y).public(fe(11)));
 
+    // selector coefficients from the compressor's pre-agreed table (Hades MDS entries 1/9 .. 1/13):
+    // their indices in the compressed description come from a table built at run time
+    for k in 9u64..=13 {
+        let m = crate::fe::inv(fe(k));
+        c.gate_add(Constraint::new().left(m).right(1).constant(m).a(x).b(y));
+    }
     // range gate
     let r = c.append_witness(fe(0xb5));
     c.component_range_bits::<8>(r);
